@@ -10,7 +10,8 @@ RULE = ("status logic proved over the table of preprocess::Wait() results regene
         "the LD_PRELOAD shim and require a non-zero status; for cache / foldfilter / b64filter a scripted child exits with code c or "
         "kills itself with SIGKILL/SIGTERM/SIGSEGV after answering k lines for every k in 0..n, and exits c after answering "
         "everything; for every tool the output device filling up after L bytes (the crossing write is short, later ones fail with ENOSPC), L over the "
-        "8 KiB buffer multiples +-1, 0, 1, half, total-1 and seeded values, must give a non-zero status; the wrapper must end within the timeout with a non-zero status (resp. exactly c); non-trivial = distinct "
+        "8 KiB buffer multiples +-1, 0, 1, half, total-1 and seeded values, must give a non-zero status; with strace, the k-th read(2) of a regular-file stdin failing with EIO and the k-th write(2) to a "
+        "regular-file stdout failing once with ENOSPC (this reaches calls made inside the C library, i.e. the stdio / iostream tools); the wrapper must end within the timeout with a non-zero status (resp. exactly c); non-trivial = distinct "
         "(tool, op, k, errno) with the fault fired, or distinct (wrapper, child ending, k)")
 ASSUMPTIONS = ["a fault on descriptor 2 (stderr) is out of scope", "the shim does not affect glibc-internal stdio calls",
                "exit status 0 is judged as 'success'; sanitizer aborts and signals count as non-zero"]
@@ -170,6 +171,47 @@ def run(ctx):
                             f"{'hung' if st == 'HANG' else 'exited 0'} with {got} bytes written")
                 break
     ctx.cov["runs_with_device_full"] = full_runs
+    # ---- (e) system-call faults injected from outside the process (strace), which also reach calls the C library issues
+    # internally (stdio / iostream based tools): the k-th read(2) of a regular-file stdin fails with EIO; the k-th
+    # write(2) to a regular-file stdout fails with ENOSPC while later ones succeed (a transient fault)
+    import shutil, subprocess
+    ptrace_runs = 0
+    if shutil.which("strace"):
+        infile, outfile, log = (os.path.join(ctx.tmp, n_) for n_ in ("strace_in", "strace_out", "strace_log"))
+        for (label, tool, args, stdin, outs) in toolset.invocations(ctx.tmp, rng, 300):
+            if outs or not stdin:
+                continue
+            open(infile, "wb").write(stdin)
+            for op_, path, err_ in (("read", infile, "EIO"), ("write", outfile, "ENOSPC")):
+                for k in (1, 2, 3, 5, 8):
+                    with open(infile, "rb") as fin, open(outfile, "wb") as fout:
+                        try:
+                            p = subprocess.run(["strace", "-f", "-o", log, "-e", "trace=" + op_, "-P", path, "-e", f"inject={op_}:error={err_}:when={k}",
+                                                ctx.bin(tool)] + args, stdin=fin, stdout=fout, stderr=subprocess.PIPE, env=pvlib.san_env(), timeout=120)
+                            st = p.returncode if p.returncode >= 0 else "sig%d" % -p.returncode
+                            err = p.stderr
+                        except subprocess.TimeoutExpired:
+                            st, err = "HANG", b""
+                    injected = os.path.exists(log) and "(INJECTED)" in open(log, errors="replace").read()
+                    if not injected:
+                        if b"ptrace" in err or b"PTRACE" in err:
+                            ctx.notes.append("strace cannot attach in this environment; part (e) skipped")
+                        break       # fewer than k such calls (or the input is mapped, not read)
+                    ptrace_runs += 1
+                    ctx.count("injected-syscall-fault", 1, [(label, op_, k)])
+                    if not nonzero(st):
+                        got = os.path.getsize(outfile)
+                        pvlib.report_violation(ctx, f"strace:{label}:{op_}{k}", {
+                            "argv": [tool] + args, "stdin_hex": hx(stdin)[:40000], "stdin": "a regular file", "stdout": "a regular file",
+                            "strace": f"-f -e trace={op_} -P <{'stdin' if op_ == 'read' else 'stdout'} file> -e inject={op_}:error={err_}:when={k}", "status": st,
+                            "bytes_written": got, "stderr": err.decode(errors="replace")[-300:]},
+                            summary=f"{label}: the {k}-th {op_}(2) of its {'input' if op_ == 'read' else 'output'} failed with {err_} "
+                                    f"(injected with strace{', later writes succeed' if op_ == 'write' else ''}) and the tool "
+                                    f"{'hung' if st == 'HANG' else 'exited 0'} ({got} bytes written)")
+                        break
+    else:
+        ctx.notes.append("strace not available; part (e) skipped")
+    ctx.cov["runs_with_injected_syscall_fault"] = ptrace_runs
 
 
 def search(ctx, broken):
